@@ -446,9 +446,10 @@ class C20(Prop):
     id = "C20"
     engine = "disk+hier"
     fit = "C"
-    rule = ("one evaluation = one named netlist (generated hierarchical design with instance properties, or a "
-            "bundled example), a faithful copy made by clone(), by write-then-read through the simulated disk in "
-            "its own format, or by parsing the same file twice, one Comparer run that must return, then exactly "
+    rule = ("one evaluation = one named netlist (generated hierarchical design with instance properties, a "
+            "bundled example, a generated Verilog text as the Verilog reader builds it, or a clone of a generated "
+            "design that got one more named element), a faithful copy made by clone(), by write-then-read through the simulated disk in "
+            "its own format, or by parsing the same file twice, one Comparer run (in either argument order) that must return, then exactly "
             "one structural fault applied to the copy (drawn from the documented list and checked to change the "
             "name-level canonical form) and a second Comparer run that must raise; non-trivial = the fault was "
             "applied and effective; distinct = distinct (event-kind multiset, final fingerprint) pairs")
